@@ -349,6 +349,54 @@ func (e *keeperEnv) bridgeTokenLines(g *gen, k *kind) {
 	}
 }
 
+// viewDepLines — is the regenerated handler view COMPLETE?  One field of a handler-acceptable claim is changed (to another
+// valid value) and the real handlers are run on both claims from one state; if what they leave behind differs, the field
+// must be one of those the regenerated `handlerView` lists (the model answers from Gen/C03.lean `viewFields`).  EventNonce
+// is left alone (it is the pending-store key, read through the ExternalClaim interface).
+func (e *keeperEnv) viewDepLines(g *gen, ks map[string]*kind) {
+	out := e.r.out
+	out.Reset("view-dependence")
+	ctx, _ := e.s.Ctx.CacheContext()
+	for _, tag := range []string{"stf", "bc", "bcr", "ste", "bt", "osu"} {
+		k := ks[tag]
+		for i := 0; i < hx.N(3, 25); i++ {
+			base := k.base(g, e.chain)
+			e.acceptable(g, base)
+			if m, ok := base.(*ct.MsgOracleSetUpdatedClaim); ok {
+				m.OracleSetNonce = 0
+			}
+			if verdict(base) != "ok" {
+				continue
+			}
+			o0 := e.handlerOutcome(ctx, base)
+			try := func(name string, d claim) {
+				if d == nil || verdict(d) != "ok" {
+					return
+				}
+				finding := "indep"
+				if e.handlerOutcome(ctx, d) != o0 {
+					finding = "dep"
+				}
+				out.Count("view-dependence:" + tag + ":" + name + ":" + finding)
+				out.Emit(fmt.Sprintf("hdep %s %s %s", tag, name, finding), "ok")
+			}
+			for _, f := range k.fields {
+				if f.name == "EventNonce" {
+					continue
+				}
+				d := k.clone(base)
+				f.mutate(g, d, e.chain)
+				try(f.name, d)
+			}
+			if alt := sameClassChains(e.chain); len(alt) > 1 {
+				d := k.clone(base)
+				setChain(d, alt[(indexOf(alt, e.chain)+1+g.rng.Intn(len(alt)-1))%len(alt)])
+				try("ChainName", d)
+			}
+		}
+	}
+}
+
 // keyLines: types.GetAttestationKey / GetPendingExecuteClaimKey against the regenerated layouts interpreted by the model
 func (e *keeperEnv) keyLines(g *gen) {
 	out := e.r.out
@@ -719,6 +767,7 @@ func keeperRunOn(t *testing.T, r *run, g *gen, ks map[string]*kind, keeperChain 
 	kg := &gen{rng: g.rng, pool: e.exts}
 	e.keyLines(g)
 	e.bridgeTokenLines(kg, ks["bt"])
+	e.viewDepLines(kg, ks)
 
 	// disagree: M from everyone except the deviators, who vote D
 	disagree := func(k *kind, what string, m, d claim, deviators []int, order []int) {
